@@ -217,7 +217,7 @@ def check(case):
 
 def parts(tier):
     return [
-        Part("wild", strategy=_wild(), check=check, n={"quick": 1400, "thorough": 30000}),
+        Part("wild", strategy=_wild(), check=check, n={"quick": 1400, "thorough": 60000}),
         Part("coincident", strategy=_coincident(), check=check, n={"quick": 500, "thorough": 10000}),
     ]
 
